@@ -250,7 +250,9 @@ Outcomes(S, op, ord) ==
     THEN {LibErr(S)} \cup {o \in Unfrozen(S, op, ord) : Struct(o.st) = Struct(S) /\ o.res = "ok"}
     ELSE Unfrozen(S, op, ord)
 
-Unspecified(S, op) == FALSE
+\* attribute entries of the bulk formats that are not dicts (key/value pairs, None): not documented; only
+\* the invariants of every reachable state are required afterwards
+Unspecified(S, op) == op.name = "add_edges_from" /\ (op.b2 \/ op.b4)
 
 AddOps == {"add_edge", "add_edges_from", "add_node_to_edge"}
 AddsPreserve(S, T) ==
